@@ -157,7 +157,7 @@ def exact_binding(c, progs, tier, rng):
                 if b > a:
                     lims |= {b - a - 1, b - a, b - a + 1}
         lims = sorted(x for x in lims if x >= 0)
-        cap = 36 if tier == "quick" else 70
+        cap = 36 if tier == "quick" else 50
         if len(lims) > cap:
             keep = set(rng.sample(lims, cap - 6)) | {0, cost - 1, cost, cost + 1, lims[1], lims[-1]}
             lims = sorted(keep)
@@ -841,13 +841,29 @@ def replay(path, tier):
     p = r["payload"]
     kind = p["kind"]
     if kind == "exact":
-        h = p["hist"]
+        # the expectation is recomputed: measure the profile again, let TLC run the same call sequence over it
+        h0 = p["hist"]
+        calls = [(e["op"], e["arg"]) for e in h0]
+        recs = harness([{"prog": p["prog"], "mode": "profile"}, {"prog": p["prog"], "mode": "ref"}], "replay_profile")
+        groups, err = groups_from_profile(recs[0]["profile"]["points"], [g["cycles"] for g in recs[1]["groups"]])
+        if err:
+            c.violation("accounting/profile/%s" % p["prog"], err, p)
+            return 1
+        pf = os.path.join(V.workdir(PID), "profile_replay.json")
+        with open(pf, "w") as f:
+            json.dump({"groups": groups, "limits": sorted({a for o, a in calls if o == "chunk"}),
+                       "budgets": sorted({a for o, a in calls if o == "budget"})}, f)
+        res = V.tlc(PID, "MC_ScriptChunk", "MC_ScriptChunk_file.cfg", workers=2, env={"C05_PROFILE": pf}, tag="replay")
+        hs = [h for h in V.tlc_json_lines(res["out"], "HIST") if [(e["op"], e["arg"]) for e in h] == calls]
+        if res["violated"] or not hs:
+            raise V.ToolError("replay: the model does not produce the call sequence %s (%s)" % (calls, res["violated"]))
+        h = hs[0]
         sched = [{"lim": lim_real(e["arg"])} for e in h if e["op"] == "chunk"]
         fin = {"kind": "complete", "max": lim_real(h[-1]["arg"])} if h[-1]["op"] == "budget" else {"kind": "none"}
         out = harness([{"prog": p["prog"], "mode": "chunks", "sched": sched, "fin": fin}], "replay")
         bad = compare_history(p["prog"], h, out[0])
         if bad:
-            c.violation(bad[0], "%s: %s" % (p["prog"], bad[1]), p)
+            c.violation(bad[0], "%s: %s" % (p["prog"], bad[1]), dict(p, hist=h, observed=out[0]))
     elif kind == "run":
         job = {k: v for k, v in p["job"].items() if k != "id"}
         spec = {k: job[k] for k in ("prog", "dag") if k in job}
